@@ -3,6 +3,7 @@ package props
 import (
 	"fmt"
 	"go/token"
+	"go/types"
 	"sort"
 	"strconv"
 	"strings"
@@ -293,7 +294,17 @@ var (
 )
 
 func policyTables(e *Env) {
-	initFn := e.fn("signedexchange.init#1")
+	// the lists live in an init function or in package-level variable
+	// initialisers (the synthesized package initialiser)
+	initFn, _ := e.P.FuncOK("signedexchange.init#1")
+	if f, ok := e.P.FuncOK("signedexchange.init"); ok && (initFn == nil || len(constArrays(initFn)) == 0) {
+		if len(constArrays(f)) > 0 {
+			initFn = f
+		}
+	}
+	if initFn == nil {
+		e.R.Undecided("ANCHOR", "signedexchange.init#1", "-", "neither an init function nor the package's variable initialisers contain the banned-header lists; the rules anchored on them cannot be evaluated")
+	}
 	if initFn != nil {
 		arrs := constArrays(initFn)
 		check := func(key string, want []string, setGlobal string) {
@@ -382,6 +393,23 @@ func arrayFeedsMap(fn *ssa.Function, arr, global string) bool {
 				continue
 			}
 			var src ssa.Value = c.Call.Args[0]
+			// the list may itself be a package-level slice variable filled from the literal
+			if ld, ok := src.(*ssa.UnOp); ok && ld.Op == token.MUL {
+				if g, ok := ld.X.(*ssa.Global); ok {
+					n := 0
+					for _, b2 := range fn.Blocks {
+						for _, i2 := range b2.Instrs {
+							if st2, ok := i2.(*ssa.Store); ok && st2.Addr == ssa.Value(g) {
+								src = st2.Val
+								n++
+							}
+						}
+					}
+					if n != 1 || !globalWrittenOnlyIn(fn, g) {
+						continue
+					}
+				}
+			}
 			if sl, ok := src.(*ssa.Slice); ok {
 				src = sl.X
 			}
@@ -435,6 +463,84 @@ func globalHoldsMap(fn *ssa.Function, m ssa.Value, global string) bool {
 // helperBuildsSet: h returns a map it made itself, into which a loop over all
 // elements of h's slice parameter (range, or index loop from 0) inserts each
 // element as a key.
+// globalWrittenOnlyIn: no function of the package other than fn stores to g
+// (its elements included).
+func globalWrittenOnlyIn(fn *ssa.Function, g *ssa.Global) bool {
+	if g.Pkg == nil {
+		return false
+	}
+	var visit func(f *ssa.Function) bool
+	visit = func(f *ssa.Function) bool {
+		if f == fn {
+			return true
+		}
+		for _, b := range f.Blocks {
+			for _, in := range b.Instrs {
+				if st, ok := in.(*ssa.Store); ok && strings.HasPrefix(prov.Of(st.Addr), prov.Of(g)) {
+					return false
+				}
+			}
+		}
+		for _, a := range f.AnonFuncs {
+			if !visit(a) {
+				return false
+			}
+		}
+		return true
+	}
+	for _, m := range g.Pkg.Members {
+		switch x := m.(type) {
+		case *ssa.Function:
+			if !visit(x) {
+				return false
+			}
+		case *ssa.Type:
+			for _, ms := range []*types.MethodSet{g.Pkg.Prog.MethodSets.MethodSet(x.Type()), g.Pkg.Prog.MethodSets.MethodSet(types.NewPointer(x.Type()))} {
+				for i := 0; i < ms.Len(); i++ {
+					if f := g.Pkg.Prog.MethodValue(ms.At(i)); f != nil && !visit(f) {
+						return false
+					}
+				}
+			}
+		}
+	}
+	return true
+}
+
+// countsDownOver: ph is the index of a loop "for i := len(s)-1; i >= 0; i--".
+func countsDownOver(ph *ssa.Phi, s ssa.Value) bool {
+	return countsDownFrom(ph, "(len("+prov.Of(s)+") - const:1)")
+}
+
+// countsDownFrom: ph starts at the value rendered wantInit, is decremented by
+// one per iteration and the loop runs while it is >= 0.
+func countsDownFrom(ph *ssa.Phi, wantInit string) bool {
+	if len(ph.Edges) != 2 {
+		return false
+	}
+	var init ssa.Value
+	dec := false
+	for _, ed := range ph.Edges {
+		if b, ok := ed.(*ssa.BinOp); ok && b.Op == token.SUB && b.X == ssa.Value(ph) && prov.Of(b.Y) == "const:1" {
+			dec = true
+		} else {
+			init = ed
+		}
+	}
+	if !dec || init == nil || prov.Of(init) != wantInit {
+		return false
+	}
+	ifi, ok := ph.Block().Instrs[len(ph.Block().Instrs)-1].(*ssa.If)
+	if !ok {
+		return false
+	}
+	c, ok := ifi.Cond.(*ssa.BinOp)
+	if !ok || c.X != ssa.Value(ph) {
+		return false
+	}
+	return (c.Op == token.GEQ && prov.Of(c.Y) == "const:0") || (c.Op == token.GTR && prov.Of(c.Y) == "const:-1")
+}
+
 func helperBuildsSet(h *ssa.Function) bool {
 	var ret ssa.Value
 	n := 0
@@ -464,6 +570,26 @@ func helperBuildsSet(h *ssa.Function) bool {
 				if mu, ok := in.(*ssa.MapUpdate); ok && mu.Map == ret && prov.Of(mu.Key) == p+"[rangeidx]" && b == l[1] {
 					return true
 				}
+			}
+		}
+	}
+	// an index loop counting down from len(p)-1 to 0
+	for _, b := range h.Blocks {
+		for _, in := range b.Instrs {
+			mu, ok := in.(*ssa.MapUpdate)
+			if !ok || mu.Map != ret {
+				continue
+			}
+			ld, ok := mu.Key.(*ssa.UnOp)
+			if !ok {
+				continue
+			}
+			ia, ok := ld.X.(*ssa.IndexAddr)
+			if !ok || ia.X != ssa.Value(h.Params[0]) {
+				continue
+			}
+			if ph, ok := ia.Index.(*ssa.Phi); ok && countsDownOver(ph, h.Params[0]) && ph.Block().Dominates(b) && len(naturalLoops(h)) == 1 {
+				return true
 			}
 		}
 	}
